@@ -34,7 +34,17 @@ def specs(draw):
     vals = draw(st.lists(_value, min_size=n, max_size=n))
     pos = draw(st.lists(st.floats(-1e3, 1e3, allow_nan=False), min_size=dim, max_size=dim))
     cls = draw(st.sampled_from(["SphericalDroplet", "DiffuseDroplet"]))
-    return {"dim": dim, "layout": layout, "values": vals, "position": pos, "cls": cls}
+    # a chain of volumes set one after the other on the same droplet (prior state matters)
+    chain = [draw(_value)]
+    for _ in range(draw(st.integers(0, 3))):
+        kind = draw(st.sampled_from(["near", "near", "fresh", "tiny"]))
+        if kind == "near":
+            chain.append(chain[-1] * (1 + draw(st.sampled_from([1e-3, 1e-6, -1e-7, 1e-9, -1e-12, 3e-16]))))
+        elif kind == "fresh":
+            chain.append(draw(_value))
+        else:
+            chain.append(10.0 ** draw(st.floats(-30, -7, allow_nan=False)))
+    return {"dim": dim, "layout": layout, "values": vals, "position": pos, "cls": cls, "volume_chain": chain, "start_radius": draw(_value)}
 
 
 class C12(Property):
@@ -43,7 +53,7 @@ class C12(Property):
         "Hypothesis draws dim in 1..3, an argument layout (python float, 0-d, 1-d, 2-d array) and values "
         "10^U(-15,15), 0, small floats and small integers; every conversion variant (plain, dimension-"
         "specialised compiled, dimension-generic compiled from an njit wrapper, py-pde volume_from_radius, "
-        "droplet properties/setters/from_volume) is compared with textbook formulas, round trips and r*S=d*V. "
+        "droplet properties/setters/from_volume, incl. chains of volume assignments with nearly equal and tiny values on a droplet in an arbitrary prior state) is compared with textbook formulas, round trips and r*S=d*V. "
         "Non-trivial = some value outside [0.1, 10] or an array argument; distinct = distinct spec hash."
     )
     assumptions = [
@@ -214,6 +224,12 @@ class C12(Property):
         ctx.require(close(d2.volume, r0), f"droplet:volume-setter:dim{dim}", f"set {r0}, read {d2.volume}")
         ctx.require(close(d2.radius, O.sphere_radius_from_volume(r0, dim)), f"droplet:volume-setter-radius:dim{dim}", f"set V={r0}, radius {d2.radius}")
         ctx.require(np.array_equal(d2.position, p), "droplet:volume-setter-moves", "position changed by volume setter")
+        # chain of volume assignments starting from an arbitrary prior state
+        d4 = cls(p, spec.get("start_radius", 1.0))
+        for v in spec.get("volume_chain", []):
+            d4.volume = v
+            ctx.require(close(d4.volume, v), f"droplet:volume-setter-chain:dim{dim}", f"chain {spec['volume_chain']} from r={spec.get('start_radius')}: set {v!r}, read {d4.volume!r}")
+            ctx.require(close(d4.radius, O.sphere_radius_from_volume(v, dim)), f"droplet:volume-setter-chain-radius:dim{dim}", f"set V={v!r}, radius {d4.radius!r}")
         d3 = cls.from_volume(p, r0)
         ctx.require(type(d3) is cls and close(d3.volume, r0) and np.array_equal(d3.position, p), f"droplet:from_volume:dim{dim}", f"from_volume({r0}) -> {d3}")
 
